@@ -2,5 +2,5 @@ From Coq Require Import ExtrOcamlBasic ZArith.
 From LX Require Import Model.FrameInfo.
 Definition ztypes_witness : Z * nat := (0%Z, 0%nat).
 Cd "extracted".
-Extraction "frameinfo_model.ml" ztypes_witness frame_info_okb position_okb tempo_okb buffer_okb voices_okb sequence_okb buffer_bytes_within_limit loops_nondecreasing.
+Extraction "frameinfo_model.ml" ztypes_witness frame_info_okb position_okb tempo_okb buffer_okb frametime_okb voices_okb sequence_okb buffer_bytes_within_limit loops_nondecreasing.
 Cd "..".
